@@ -160,6 +160,10 @@ def load_point(p, reg, pt, rng, how=None, scratch=("e4", "e5", "e6", "e7")):
     lam = 1
     if how in ("ext-lam", "ext-ncl"):
         lam = rng.choice([2, P - 1, rng.randrange(1, P), rng.randrange(1, 2**20)])
+        # representations normalised on another coordinate: X, Y or T (instead of Z) equal to exactly 1, or to -1
+        units = [c for c in (x, y, x * y % P) if c % P != 0]
+        if units and rng.randrange(3) == 0:
+            lam = inv(rng.choice(units)) * rng.choice([1, 1, P - 1]) % P
     vals = [x * lam % P, y * lam % P, lam % P, x * y * lam % P]
     for r, v in zip(scratch, vals):
         if how == "ext-ncl":
@@ -301,10 +305,28 @@ def shim_programs(g, tier):
             p.op("Shim.BaseNafTable", n=rng.randrange(64))
 
 
+def long_alias_programs(g, tier, tag):
+    """multi-scalar calls with many terms and the receiver aliased to an early, a middle and the last term"""
+    rng = g.rng
+    # long calls with the receiver aliased to an early, a middle and the last term
+    for alg in ["Point.MultiScalarMult", "Point.VarTimeMultiScalarMult"]:
+        for n in ([17, 33] if tier == "quick" else [9, 16, 17, 18, 32, 33, 40, 65]):
+            for pos in sorted({0, n // 2, n - 1}):
+                p = g.new("%s %s n=%d receiver = points[%d]" % (tag, alg, n, pos))
+                for j in range(4):
+                    load_point(p, "p%d" % j, any_point(rng), rng)
+                    load_scalar(p, "s%d" % j, rng.randrange(2**24) if j else scalar_val(rng), rng)
+                ps = [rng.choice(["p1", "p2", "p3"]) for _ in range(n)]
+                ps[pos] = "p0"
+                p.op(alg, r="p0", ss=[rng.choice(["s0", "s1", "s2", "s3"]) if i == pos else rng.choice(["s1", "s2", "s3"]) for i in range(n)], ps=ps)
+                p.op("Point.Bytes", r="p0", o=["b0"])
+
+
 def suite_C01(g, tier):
     rng = g.rng
     if SHIM:
         shim_programs(g, tier)
+    cold_programs(g, tier, "C01")
     n_single = 10 if tier == "quick" else 120
     algs = ["Point.ScalarMult", "Point.ScalarBaseMult", "Point.VarTimeDoubleScalarBaseMult"]
     for it in range(n_single):
@@ -403,18 +425,7 @@ def suite_C01(g, tier):
             p.op("Point.VarTimeDoubleScalarBaseMult", r=r, a=["s0", "p1", "s1"])
             p.op("Point.ScalarMult", r=r, a=["s2", "p2"])
             p.op("Point.ScalarBaseMult", r=r, a=["s1"])
-    # long calls with the receiver aliased to an early, a middle and the last term
-    for alg in ["Point.MultiScalarMult", "Point.VarTimeMultiScalarMult"]:
-        for n in ([17, 33] if tier == "quick" else [9, 16, 17, 18, 32, 33, 40, 65]):
-            for pos in sorted({0, n // 2, n - 1}):
-                p = g.new("C01 %s n=%d receiver = points[%d]" % (alg, n, pos))
-                for j in range(4):
-                    load_point(p, "p%d" % j, any_point(rng), rng)
-                    load_scalar(p, "s%d" % j, rng.randrange(2**24) if j else scalar_val(rng), rng)
-                ps = [rng.choice(["p1", "p2", "p3"]) for _ in range(n)]
-                ps[pos] = "p0"
-                p.op(alg, r="p0", ss=[rng.choice(["s0", "s1", "s2", "s3"]) if i == pos else rng.choice(["s1", "s2", "s3"]) for i in range(n)], ps=ps)
-                p.op("Point.Bytes", r="p0", o=["b0"])
+    long_alias_programs(g, tier, "C01")
     # eight terms through six registers (repeated pointers)
     for alg in ["Point.MultiScalarMult", "Point.VarTimeMultiScalarMult"]:
         p = g.new("C01 %s n=8" % alg)
@@ -592,6 +603,69 @@ def sibling_programs(g, tier, tag):
             p.op("Point.Bytes", r="p1", o=["b0"])
 
 
+def cold_programs(g, tier, tag):
+    """programs that run in a fresh process each: the FIRST call of the process is an operation that relies on lazily built
+    or cached package state, with valid, degenerate or misused arguments"""
+    rng = g.rng
+    firsts = ["base", "double", "double-uninit", "double-zero-a", "msm", "vmsm", "vmsm-empty", "newgen", "newid", "setext-zero",
+              "scalarmult", "montgomery", "equal-uninit", "add-uninit", "setbytes-bad"]
+    if tier == "quick":
+        firsts = ["double-uninit", "base", "double-zero-a", "setext-zero", "vmsm-empty"] + rng.sample(firsts, 3)
+    for f in firsts:
+        p = g.new("%s cold process, first call: %s" % (tag, f))
+        p.cold = True
+        # arguments are prepared with operations that do not touch the lazily built state (decoding, scalar decoding)
+        p.point_from_bytes("p1", enc_point(*any_point(rng)))
+        p.scalar_canon("s0", scalar_val(rng) or 1)
+        p.scalar_canon("s1", 0)
+        if f == "base":
+            p.op("Point.ScalarBaseMult", r="p0", a=["s0"])
+        elif f == "double":
+            p.op("Point.VarTimeDoubleScalarBaseMult", r="p0", a=["s0", "p1", "s0"])
+        elif f == "double-uninit":
+            p.op("Point.VarTimeDoubleScalarBaseMult", r="p0", a=["s0", "p2", "s0"])
+            p.op("Point.VarTimeDoubleScalarBaseMult", r="p0", a=["s1", "p2", "s0"])
+        elif f == "double-zero-a":
+            p.op("Point.VarTimeDoubleScalarBaseMult", r="p0", a=["s1", "p1", "s0"])
+            p.op("Point.VarTimeDoubleScalarBaseMult", r="p3", a=["s1", "p2", "s1"])
+        elif f == "msm":
+            p.op("Point.MultiScalarMult", r="p0", ss=["s0", "s1"], ps=["p1", "p1"])
+        elif f == "vmsm":
+            p.op("Point.VarTimeMultiScalarMult", r="p0", ss=["s0", "s1"], ps=["p1", "p1"])
+        elif f == "vmsm-empty":
+            p.op("Point.VarTimeMultiScalarMult", r="p0", ss=[], ps=[])
+            p.op("Point.MultiScalarMult", r="p3", ss=[], ps=[])
+            p.op("Point.VarTimeMultiScalarMult", r="p4", ss=["s1"], ps=["p1"])
+        elif f == "newgen":
+            p.op("NewGeneratorPoint", o=["p0"])
+        elif f == "newid":
+            p.op("NewIdentityPoint", o=["p0"])
+        elif f == "setext-zero":
+            for r in ("e0", "e1", "e2", "e3"):
+                p.op("Elem.Zero", r=r)
+            p.op("Point.SetExtendedCoordinates", r="p0", a=["e0", "e1", "e2", "e3"])
+            p.op("Point.ExtendedCoordinates", r="p1", o=["e4", "e5", "e6", "e7"])
+            p.op("Point.SetExtendedCoordinates", r="p3", a=["e4", "e5", "e6", "e7"])
+            p.op("Point.SetExtendedCoordinates", r="p3", a=["e0", "e1", "e2", "e3"])
+        elif f == "scalarmult":
+            p.op("Point.ScalarMult", r="p0", a=["s0", "p1"])
+        elif f == "montgomery":
+            p.op("Point.BytesMontgomery", r="p1", o=["b0"])
+            p.op("Point.BytesMontgomery", r="p1", o=["b1"])
+        elif f == "equal-uninit":
+            p.op("Point.Equal", r="p1", a=["p2"])
+        elif f == "add-uninit":
+            p.op("Point.Add", r="p0", a=["p1", "p2"])
+        else:
+            p.buf("b0", bytes(31))
+            p.op("Point.SetBytes", r="p0", a=["b0"])
+        # then ordinary use
+        p.op("Point.ScalarBaseMult", r="p4", a=["s0"])
+        p.op("Point.VarTimeDoubleScalarBaseMult", r="p5", a=["s0", "p1", "s0"])
+        p.op("Point.Bytes", r="p4", o=["b2"])
+        p.op("Point.Bytes", r="p5", o=["b3"])
+
+
 def suite_C04(g, tier):
     rng = g.rng
     encs = []
@@ -634,6 +708,21 @@ def suite_C04(g, tier):
             p.op("Point.SetBytes", r=r, a=["b%d" % k])
             if rng.randrange(3) == 0:
                 p.op("Point.Bytes", r=r, o=["b7"])    # panics if r is still the zero value: also fine (C15)
+    # both sign candidates of the same y decoded back to back (and the first one again), into the same and into other receivers
+    m = 8 if tier == "quick" else 120
+    for it in range(m):
+        p = g.new("C04 both signs back to back")
+        for k in range(3):
+            pt = rng.choice([rand_point(rng), special_point(rng), rng.choice(TORS_PTS)])
+            e = enc_point(*pt)
+            if rng.randrange(4) == 0 and pt[1] < 19:
+                e = le((P + pt[1]) | ((pt[0] & 1) << 255))
+            e2 = e[:31] + bytes([e[31] ^ 0x80])
+            seq = rng.choice([[e, e2, e], [e2, e, e2], [e, e, e2]])
+            for j, enc in enumerate(seq):
+                p.buf("b%d" % j, enc)
+                p.op("Point.SetBytes", r=rng.choice(["p0", "p0", "p1"]), a=["b%d" % j])
+            p.op("Point.Bytes", r="p0", o=["b6"])
     # every length
     lens = list(range(0, 34)) + [63, 64, 65, 130]
     for i in range(0, len(lens), 6):
@@ -830,19 +919,23 @@ def suite_C07(g, tier):
         p.op("Scalar.Multiply", r="s3", a=rng.choice([["s4", "s5"], ["s5", "s4"]]))
         p.op("Scalar.MultiplyAdd", r="s2", a=["s4", "s5", rng.choice(["s2", "s0"])])
         # result-directed sum / difference in the Montgomery domain: the integer sum of the two representatives is structured
-        S = 0
-        for i in range(4):
-            S |= rng.choice(PAL64 + [2**60, 2**60 + 1, 2**61 - 1, rng.randrange(2**64)]) << (64 * i)
-        S %= 2 * L
-        am = rng.randrange(0, min(S, L - 1) + 1)
-        bm = S - am
-        if bm < L:
+        for _rep in range(8):
+            S = 0
+            for i in range(4):
+                top = [2**60, 2**60 + 1, 2**60 + 2**32, 2**61 - 1] if i == 3 else []
+                S |= rng.choice(PAL64 + top + [rng.randrange(2**64)]) << (64 * i)
+            S %= 2 * L
+            am = rng.randrange(0, min(S, L - 1) + 1)
+            bm = S - am
+            if bm >= L:
+                continue
             load_scalar(p, "s4", am * RINV % L, rng, "canon")
             load_scalar(p, "s5", bm * RINV % L, rng, "canon")
             p.op("Scalar.Add", r="s3", a=rng.choice([["s4", "s5"], ["s5", "s4"]]))
-            p.op("Scalar.Bytes", r="s3", o=["b1"])
             p.op("Scalar.Subtract", r="s2", a=["s3", "s5"])
-            p.op("Scalar.MultiplyAdd", r="s2", a=["s0", "s1", "s3"])
+            if _rep == 0:
+                p.op("Scalar.Bytes", r="s3", o=["b1"])
+                p.op("Scalar.MultiplyAdd", r="s2", a=["s0", "s1", "s3"])
         # the same value in whatever representation an operation left it and freshly decoded: Equal both ways
         for r in ("s3", "s2"):
             p.op("Scalar.Bytes", r=r, o=["b1"])
@@ -1077,8 +1170,32 @@ def directed_pair(rng, op):
     return a, R * inv(a) % P
 
 
+def wide_edge_inputs(rng):
+    """64-byte strings whose halves maximise the folded sums lo + 19 loMSB + 38 hi + 722 hiMSB limb by limb"""
+    out = []
+    for lo_ in (2**255 - 1, 2**256 - 1, struct_val(rng), (2**51 - 1) | ((2**51 - 1) << 204)):
+        for hi_ in (2**256 - 1, ((2**51 - 1) // 38) | ((2**51 - 1) << 204) | (1 << 255), ((2**51 - 1) // 19) | (1 << 255), struct_val(rng) | (1 << 255)):
+            out.append(le(lo_ % 2**256) + le(hi_ % 2**256))
+    return out
+
+
 def suite_C09(g, tier):
     rng = g.rng
+    # decoded wide inputs at the edge of the representation invariant, then used as subtrahend / under Negate / Absolute
+    ws = wide_edge_inputs(rng)
+    for i in range(0, len(ws), 4):
+        p = g.new("C09 wide inputs used in every role")
+        load_elem(p, "e3", field_val(rng), rng)
+        for k, w in enumerate(ws[i:i + 4]):
+            p.buf("b%d" % k, w)
+            p.op("Elem.SetWideBytes", r="e0", a=["b%d" % k])
+            p.op("Elem.Negate", r="e1", a=["e0"])
+            p.op("Elem.Subtract", r="e2", a=["e3", "e0"])
+            p.op("Elem.Absolute", r="e4", a=["e0"])
+            p.op("Elem.Square", r="e5", a=["e0"])
+            p.op("Elem.Multiply", r="e5", a=["e0", "e3"])
+            p.op("Elem.Mult32", r="e6", a=["e0"], n=2**32 - 1)
+            p.op("Elem.Negate", r="e6", a=["e6"])
     n = 50 if tier == "quick" else 2500
     for it in range(n):
         p = g.new("C09 field arithmetic")
@@ -1272,10 +1389,7 @@ def suite_C10(g, tier):
         if rng.randrange(4) == 0:
             b[32:64] = le(struct_val(rng))
         wides.append(bytes(b))
-    # structured halves: each half all ones / limb patterns that maximise the folded sums
-    for lo_ in (2**255 - 1, 2**256 - 1, struct_val(rng), (2**51 - 1) | ((2**51 - 1) << 204)):
-        for hi_ in (2**256 - 1, ((2**51 - 1) // 38) | ((2**51 - 1) << 204) | (1 << 255), ((2**51 - 1) // 19) | (1 << 255), struct_val(rng) | (1 << 255)):
-            wides.append(le(lo_ % 2**256) + le(hi_ % 2**256))
+    wides += wide_edge_inputs(rng)
     for i in range(0, len(wides), 6):
         p = g.new("C10 wide")
         load_elem(p, "e3", field_val(rng), rng)
@@ -1347,12 +1461,19 @@ def suite_C11(g, tier):
                 if op != "Point.Equal":
                     p.op("Point.Bytes", r=asg[0], o=["b0"])
         for asg in alias_assignments(2, ["p0", "p1"]):                # ScalarMult(recv; s, q)
-            p = g.new("C11 ScalarMult %s" % asg)
-            for r in sorted(set(asg)):
-                load_point(p, r, any_point(rng), rng)
-            load_scalar(p, "s0", scalar_val(rng), rng)
-            p.op("Point.ScalarMult", r=asg[0], a=["s0", asg[1]])
-            p.op("Point.VarTimeDoubleScalarBaseMult", r=asg[0], a=["s0", asg[1], "s0"])
+            for k in [0, 1, 2**251, 2**252, L - 1, rng.randrange(2**250), scalar_val(rng), bitlen_scalar(rng)]:
+                p = g.new("C11 ScalarMult %s" % asg)
+                for r in sorted(set(asg)):
+                    load_point(p, r, any_point(rng), rng)
+                load_scalar(p, "s0", k % L, rng)
+                load_scalar(p, "s1", scalar_val(rng), rng)
+                p.op("Point.ScalarMult", r=asg[0], a=["s0", asg[1]])
+                p.op("Point.Bytes", r=asg[0], o=["b0"])
+                if asg[0] == asg[1]:
+                    load_point(p, asg[1], any_point(rng), rng)
+                p.op("Point.VarTimeDoubleScalarBaseMult", r=asg[0], a=["s0", asg[1], "s1"])
+        if _ == 0:
+            long_alias_programs(g, tier, "C11")
         for alg in ["Point.MultiScalarMult", "Point.VarTimeMultiScalarMult"]:
             for asg in alias_assignments(3, ["p0", "p1", "p2"]):        # receiver, points[0], points[1]
                 for sa in (["s0", "s1"], ["s0", "s0"]):
@@ -1480,6 +1601,7 @@ def suite_C12(g, tier):
             p.op("Point.Bytes", r=r, o=["b2"])
             p.op("Point.Equal", r=r, a=[live[0]])
     stale_state_programs(g, tier, "C12")
+    cold_programs(g, tier, "C12")
     # degenerate imports (also C13)
     suite_C13(g, tier, only_degenerate=True)
 
@@ -1639,6 +1761,7 @@ def suite_C14(g, tier):
 
 def suite_C15(g, tier):
     rng = g.rng
+    cold_programs(g, tier, "C15")
     # the valid operands include the points whose X or Y limbs are all zero (the guard looks at exactly those limbs)
     zero_coord = [(0, 1), (0, P - 1), (SQRTM1, 0), (P - SQRTM1, 0)]
     reps = 5 if tier == "quick" else 15
@@ -1689,8 +1812,9 @@ def suite_C15(g, tier):
                     ps = [rng.choice(["p2", "p3"]) for _ in range(n)]
                     ps[zpos] = "p0"
                     p.op(alg, r=rng.choice(["p1", "p2", "p0"]), ss=["s0"] * n, ps=ps)
-            # mismatched lengths
-            for ns, npts in [(0, 1), (1, 0), (1, 2), (2, 1), (0, 2), (2, 0), (3, 2), (0, 0), (2, 2)]:
+            # mismatched lengths, also beyond any plausible batch size
+            for ns, npts in [(0, 1), (1, 0), (1, 2), (2, 1), (0, 2), (2, 0), (3, 2), (0, 0), (2, 2)] + \
+                    ([(129, 130), (130, 129), (16, 17), (17, 16), (65, 64), (257, 258)] if rep == 0 else []):
                 p = g.new("C15 %s lengths %d/%d" % (alg, ns, npts))
                 load_point(p, "p2", any_point(rng), rng)
                 load_scalar(p, "s0", scalar_val(rng), rng)
@@ -1874,6 +1998,7 @@ def suite_C19(g, tier):
         p.op("Point.ScalarMult", r="p0", a=["s0", "p1"])
         p.op("Point.Bytes", r="p0", o=["b0"])
     stale_state_programs(g, tier, "C19")
+    cold_programs(g, tier, "C19")
 
 
 def suite_field_programs(g, tier):
@@ -2173,7 +2298,7 @@ def conc_scenario(sid, rng, G):
     pre = Prog(0, "prelude")
     load_point(pre, "p0", any_point(rng), rng, rng.choice(["bytes", "ext-lam"]), scratch=("e0", "e1", "e2", "e3"))
     load_point(pre, "p1", any_point(rng), rng, "bytes")
-    load_scalar(pre, "s0", scalar_val(rng), rng, "canon")
+    load_scalar(pre, "s0", 0 if rng.randrange(4) == 0 else scalar_val(rng), rng, "canon")
     load_scalar(pre, "s1", scalar_val(rng), rng, "canon")
     load_elem(pre, "e0", field_val(rng), rng, rng.choice(["inject", "bytes"]))
     load_elem(pre, "e1", rng.randrange(19), rng, "bytes")          # often in the non-canonical form value + p
